@@ -1404,7 +1404,12 @@ class ExecutionTracer(AbstractExecutionTracer):  # noqa: PLR0904
         exc_value: BaseException | None,
         traceback: TracebackType | None,
     ) -> None:
-        self.stop()
+        # Only the thread that owns the tracer may deactivate it.  A thread that was
+        # abandoned after a timeout unwinds through this method as soon as ``check``
+        # aborts it; stopping unconditionally would then abort the test case that is
+        # being executed in the meantime, which would be reported as a timeout.
+        if threading.current_thread().ident == self._current_thread_identifier:
+            self.stop()
 
     def check(self) -> None:  # noqa: D102
         if threading.current_thread().ident != self._current_thread_identifier:
